@@ -26,8 +26,9 @@ ASSUMPTIONS = ['oracle: the model re-implemented from its definition and differe
                'the sigma clause is judged against sqrt(diag(F^-1)) with F built (numpy.linalg.solve) from the derivatives '
                'the real lmfit_jacobian returns - "those derivatives" in the statement - whose correctness is the other '
                'contract; cases with cond(F) >= 1e10 are undetermined']
-MIN_REACH = {'fitting:jacobian': 1, 'fitting:lmfit_jacobian': 1, 'fitting:covar_errors': 1}
-MIN_COUNTERS = {'contract_jacobian': 50, 'contract_lmfit_jacobian': 50, 'contract_covar_errors': 50,
+MIN_REACH = {'fitting:jacobian': 1, 'fitting:lmfit_jacobian': 1, 'fitting:covar_errors': 1, 'fitting:errors': 1,
+             'fitting:do_lmfit': 1}
+MIN_COUNTERS = {'contract_component_errors': 10, 'component_shape_errors_judged': 5, 'contract_jacobian': 50, 'contract_lmfit_jacobian': 50, 'contract_covar_errors': 50,
                 'sigma_entries_judged': 100}
 
 _OBS = None
@@ -196,6 +197,63 @@ def post_covar_errors(params, data, errs, B, C, result):
     return True
 
 
+def post_result_to_components(model, sources):
+    """err_* catalogue columns (observe_at #3): the reported errors of a component are the sky projections of ITS OWN
+    pixel-space 1-sigma errors.  A length and its error scale by the same factor along one direction, so the relative
+    errors are preserved:  err_a/a = err_s/s of whichever of (sx, sy) became the major axis, likewise for b;
+    err_peak_flux = err_amp; err_pa = err_theta up to the (small) anisotropy of the pixel grid."""
+    o = _OBS
+    if o is None:
+        return
+    for src in sources:
+        if not hasattr(src, 'err_a') or not hasattr(src, 'source'):
+            continue
+        if int(src.flags) & (2 | 16 | 32):       # FITERR, NOTFIT, WCSERR: errors are masked by design
+            continue
+        pre = 'c%d_' % src.source
+        try:
+            sx, sy = float(model[pre + 'sx'].value), float(model[pre + 'sy'].value)
+            esx, esy = model[pre + 'sx'].stderr, model[pre + 'sy'].stderr
+            eth = model[pre + 'theta'].stderr
+            eamp = model[pre + 'amp'].stderr
+        except KeyError:
+            continue
+        o.count('contract_component_errors')
+        w = {'island': src.island, 'source': src.source, 'sx': sx, 'sy': sy, 'err_sx': esx, 'err_sy': esy, 'err_theta': eth,
+             'a': src.a, 'b': src.b, 'pa': src.pa, 'err_a': src.err_a, 'err_b': src.err_b, 'err_pa': src.err_pa,
+             'err_peak_flux': src.err_peak_flux, 'err_amp': eamp}
+        if eamp is not None and np.isfinite(eamp) and model[pre + 'amp'].vary and src.err_peak_flux != -1:
+            if not abs(src.err_peak_flux - eamp) <= 1e-9 * abs(eamp):
+                o.violate('err_peak_flux_is_not_err_amp', w)
+        free_shape = model[pre + 'sx'].vary and model[pre + 'sy'].vary
+        ok = lambda v: v is not None and np.isfinite(v) and v > 0
+        if free_shape and ok(esx) and ok(esy) and ok(src.err_a) and ok(src.err_b) and ok(src.a) and ok(src.b):
+            if abs(sx - sy) <= 2e-2 * max(sx, sy):
+                o.count('component_errors_round_not_paired')
+            elif esx > 0.2 * sx or esy > 0.2 * sy:
+                # the sky error is a finite displacement: only linear (hence comparable) while the error is small
+                o.count('component_errors_unconstrained_not_judged')
+            else:
+                (smaj, emaj), (smin, emin) = ((sx, esx), (sy, esy)) if sx > sy else ((sy, esy), (sx, esx))
+                ra_, rb_ = src.err_a / src.a, src.err_b / src.b
+                o.count('component_shape_errors_judged')
+                da = abs(ra_ - emaj / smaj) / (emaj / smaj)
+                db = abs(rb_ - emin / smin) / (emin / smin)
+                o.worst('err_a_over_a_vs_pixel_rel', da)
+                o.worst('err_b_over_b_vs_pixel_rel', db)
+                if da > 0.02 or db > 0.02:
+                    crossed = abs(ra_ - emin / smin) <= 0.02 * (emin / smin) and abs(rb_ - emaj / smaj) <= 0.02 * (emaj / smaj)
+                    o.violate('shape_errors_are_not_the_components_own', dict(w, rel_err_a=ra_, rel_err_b=rb_, pixel_rel_major=emaj / smaj,
+                                                                             pixel_rel_minor=emin / smin, crossed=bool(crossed)),
+                              None)
+        if model[pre + 'theta'].vary and ok(eth) and ok(src.err_pa) and eth < 20.0:
+            o.count('component_pa_errors_judged')
+            d = abs(src.err_pa - eth) / eth
+            o.worst('err_pa_vs_err_theta_rel', d)
+            if d > 0.10:
+                o.violate('err_pa_is_not_err_theta', w)
+
+
 class ContractBroken(Exception):
     pass
 
@@ -217,6 +275,19 @@ def install():
                 continue
             if getattr(m, name, None) is orig:
                 setattr(m, name, wrapped)
+    # result_to_components has a parameter called `result` (icontract reserves that name): plain wrapper
+    from AegeanTools import source_finder as sfm
+    orig_rtc = sfm.SourceFinder.result_to_components
+
+    def result_to_components(self, result, model, island_data, isflags):
+        out = orig_rtc(self, result, model, island_data, isflags)
+        try:
+            post_result_to_components(model, out)
+        except Exception as e:          # a monitor fault must never change the subject's behaviour
+            if _OBS is not None:
+                _OBS.count('contract_component_errors_monitor_fault')
+        return out
+    sfm.SourceFinder.result_to_components = result_to_components
     _installed = True
 
 
@@ -252,6 +323,11 @@ def cases(seed, tier):
     thetas = [0.0, 45.0, -45.0, 90.0, -90.0, 180.0, None, None] if tier == 'quick' else [0.0, 45.0, -45.0, 90.0, -90.0, 180.0, -180.0, 30.0, 1e-6, 89.999999] + [None] * 40
     for ti, th in enumerate(thetas):
         out.append({'kind': 'subsets1', 'theta': th, 'seed': [seed, 'sub', ti]})
+    # in situ: real blind fits (noise + source, both noise models) with every contract armed, so that the derivatives the
+    # optimiser actually receives, the sigmas the catalogue actually gets and the err_* columns are judged where they arise
+    n_situ = 8 if tier == 'quick' else 120
+    for i in range(n_situ):
+        out.append({'kind': 'insitu', 'seed': [seed, 'insitu', i], 'n': 6})
     n_multi = 40 if tier == 'quick' else 8000
     for i in range(n_multi):
         out.append({'kind': 'multi', 'n': int(rng.integers(1, 5)), 'seed': [seed, 'multi', i],
@@ -300,6 +376,43 @@ def run(case):
     set_obs(o)
     try:
         rng = rng_for(*case['seed'])
+        if case['kind'] == 'insitu':
+            from aegmon.props import c01
+            from aegmon.refs import render
+            import shutil
+            from aegmon.common import scratch_dir
+            global EVERY
+            every_old = EVERY
+            EVERY = 5            # thin the per-iteration derivative contract on large islands
+            sc = scratch_dir()
+            try:
+                for k in range(case['n']):
+                    t = c01.gen_source_case(rng, noisy=True, big_ok=False)
+                    t['via'] = 'api'
+                    t['bane'] = False
+                    if rng.random() < 0.4:
+                        t['src']['a'] = t['src']['b'] * float(rng.uniform(2.0, 3.5))
+                        t['src']['pa'] = float(rng.choice([0.0, 90.0])) + float(rng.uniform(-15, 15))
+                        t['src']['pa'] -= 180 if t['src']['pa'] > 90 else 0
+                    if t['docov']:
+                        t['src']['a'] = min(t['src']['a'], 9.0 * t['scale'] * 3600)
+                        t['src']['b'] = min(t['src']['b'], t['src']['a'])
+                    h, z, truth, img, off = c01.build(t)
+                    sgm = abs(truth['peak']) / t['snr']
+                    nrng = np.random.default_rng(t['noise_seed'])
+                    if t['docov']:
+                        sa, sb, ang = c01.pixbeam_kernel(z, truth, t['beam'])
+                        noise = render.correlated_noise(nrng, tuple(t['shape']), sgm, (sa / 2.0, sb / 2.0), ang)
+                    else:
+                        noise = render.correlated_noise(nrng, tuple(t['shape']), sgm)
+                    rows = c01.run_finder(t, img + noise, h, sgm, sc)
+                    o.count('insitu_fits')
+                    o.n_nontrivial += 1
+                o.sample = {'insitu_fits': case['n'], 'last_truth': truth, 'components': len(rows)}
+            finally:
+                EVERY = every_old
+                shutil.rmtree(sc, ignore_errors=True)
+            return o.result()
         if case['kind'] == 'subsets1':
             shape, data = _grid(rng)
             shape = (max(shape[0], 7), max(shape[1], 7))
